@@ -114,7 +114,9 @@ inline Edit random_edit(Tape &t, const std::vector<std::string> &toks, bool allo
         break;
       }
       e.pos = ids[t.pick((unsigned)ids.size())];
-      e.tok = t.chance(1, 4) ? std::string(t.chance(1, 2) ? "zz" : "f") : toks[ids[t.pick((unsigned)ids.size())]];
+      // (names of the hidden built-ins and other names starting with "__" are ordinary identifiers)
+      static const char *NEW[] = {"zz", "f", "__INC__", "__nope", "__DEC__", "f"};
+      e.tok = t.chance(1, 4) ? std::string(NEW[t.pick(6)]) : toks[ids[t.pick((unsigned)ids.size())]];
       break;
     }
     case 6: {
